@@ -17,8 +17,8 @@ Definition g_init : ghost := {| g_delivered := 0; g_pub := ∅; g_xf := ∅ |}.
 Definition ghost_step (J : job) (E : env) (g : ghost) (s : sys) (l : label) : ghost :=
   match l with
   | LDeliver _ => {| g_delivered := S (g_delivered g); g_pub := g_pub g; g_xf := g_xf g |}
-  | LFinish w => match wq s !! w with
-                 | Some t => {| g_delivered := g_delivered g; g_pub := g_pub g ∪ outs J t; g_xf := g_xf g |}
+  | LPublish w i => match wq s !! w with
+                 | Some t => {| g_delivered := g_delivered g; g_pub := g_pub g ∪ {[(t, i)]}; g_xf := g_xf g |}
                  | None => g end
   | LAssign w t srcs => match e_host E !! w with
                         | Some h => {| g_delivered := g_delivered g; g_pub := g_pub g;
@@ -92,7 +92,7 @@ Section bound.
   Record GInv (g : ghost) (s : sys) : Prop := {
     g_count : (g_delivered g + List.length (pool s) + List.length (xfers s) + List.length (fetches s)
                = size (g_pub g) + size (g_xf g) + size (fetched (ctl s)))%nat;
-    g_pub_fin : ∀ d, d ∈ g_pub g → d.1 ∈ finished s ∧ d ∈ all_outs;
+    g_pub_fin : ∀ d, d ∈ g_pub g → d ∈ published s ∧ d ∈ all_outs;
     g_xf_ok : ∀ d h, (d, h) ∈ g_xf g →
               (d, h) ∈ pair_universe ∧ (d ∈ purged (ctl s) ∨ is_Some (ds2host (ctl s) !! (d, h)));
   }.
@@ -118,7 +118,7 @@ Section bound.
     Inv J E s → GInv g s → exec J E s l = Next (s', cs) → GInv (ghost_step J E g s l) s'.
   Proof.
     intros Hinv [Hc Hp Hx] Hex.
-    destruct l as [w t srcs| |ev|w|[[d src] tgt]|[d src]|[h d]]; simpl in Hex.
+    destruct l as [w t srcs| |ev|w i|[[d src] tgt]|[d src]|[h d]]; simpl in Hex.
     - (* LAssign *)
       destruct (assign_c J E (ctl s) w t srcs) as [[c h]| |e|e] eqn:Ha; try done.
       case_bool_decide as Hwq; [done|]. injection Hex as <- <-.
@@ -188,19 +188,22 @@ Section bound.
       + rewrite Ef. lia.
       + done.
       + intros d h Hin. rewrite Ep. destruct (Hx _ _ Hin) as (? & [?|?]); split; auto.
-    - (* LFinish *)
+    - (* LPublish *)
       destruct (wq s !! w) as [t|] eqn:Hw; [|done]. destruct (e_host E !! w) as [h|] eqn:Hh; [|done].
-      destruct (negb _); [done|]. destruct (negb _); [done|]. injection Hex as <- <-.
+      destruct (negb _); [done|].
+      match type of Hex with context [if negb ?b then _ else _] => destruct b eqn:Hcnd end; simpl in Hex; [|done].
+      match type of Hex with context [if ?b then Fail _ else _] => destruct b end; [done|]. injection Hex as <- <-.
+      apply andb_prop in Hcnd as [Hcnd _]. apply andb_prop in Hcnd as [Hout Hnp]. apply bool_decide_eq_true in Hout, Hnp.
       destruct (i_wq _ _ _ Hinv _ _ Hw) as (_ & _ & Htask & Hnf).
-      unfold ghost_step. rewrite Hw. constructor; simpl.
-      + rewrite app_length, fmap_length. rewrite size_union.
-        * rewrite size_outs. lia.
-        * intros d H1 H2. destruct (Hp _ H1) as [Hf _]. apply outs_spec in H2 as [Hd1 _].
-          destruct d as [a b]; simpl in *; subst; done.
+      unfold ghost_step. cbv beta iota.
+      match goal with |- context [match ?x with Some _ => _ | None => _ end] => replace x with (Some t) by (symmetry; exact Hw) end.
+      constructor; simpl.
+      + rewrite app_length. simpl. rewrite size_union.
+        * rewrite size_singleton. lia.
+        * intros d H1 H2. apply elem_of_singleton in H2 as ->. by destruct (Hp _ H1) as [? _].
       + intros d Hd. apply elem_of_union in Hd as [Hd|Hd].
         * destruct (Hp _ Hd). split; [set_solver|done].
-        * split; [apply outs_spec in Hd as Hd'; destruct Hd' as [Hd1 _]; destruct d as [a b]; simpl in *; subst; set_solver|].
-          apply all_outs_spec. eauto.
+        * apply elem_of_singleton in Hd as ->. split; [set_solver|]. apply all_outs_spec. eauto.
       + done.
     - destruct (list_remove _ (xfers s)) as [xs|] eqn:Hrm; [|done]. destruct (negb _); [done|]. injection Hex as <- <-.
       pose proof (length_remove _ _ _ Hrm). constructor; simpl; [rewrite app_length; simpl; lia|done|done].
